@@ -930,6 +930,451 @@ fn bc7_obs(b: &[u8]) -> String {
     )
 }
 
+
+// ---------------------------------------------------------------------------------------------
+// BC7 encoder internals: direct tie through `dds::verif_hook` (notes/hook_bc7_writer.patch) and the encoder's
+// weight tables as source text
+
+/// per mode: #endpoints, colour bits, alpha bits (modes 4, 5: of the separate alpha endpoints; 6, 7: = colour bits),
+/// #p-bits, index bits, second index bits, #partitions, subsets
+const W7_SHAPE: [(usize, u32, u32, usize, u32, u32, u32, u32); 8] = [
+    (6, 4, 0, 6, 3, 0, 16, 3),
+    (4, 6, 0, 2, 3, 0, 64, 2),
+    (6, 5, 0, 0, 2, 0, 64, 3),
+    (4, 7, 0, 4, 2, 0, 64, 2),
+    (2, 5, 6, 0, 2, 3, 64, 1),
+    (2, 7, 8, 0, 2, 2, 64, 1),
+    (2, 7, 7, 2, 4, 0, 64, 1),
+    (4, 5, 5, 4, 2, 0, 64, 2),
+];
+
+fn csv(s: &str) -> Option<Vec<u32>> {
+    if s == "-" {
+        Some(vec![])
+    } else {
+        s.split(',').map(|x| if x.is_empty() || x.len() > 9 || !x.bytes().all(|c| c.is_ascii_digit()) { None } else { x.parse().ok() }).collect()
+    }
+}
+
+struct W7 {
+    mode: usize,
+    part: u32,
+    rot: u32,
+    sel: u32,
+    eps: Vec<u32>,
+    al: Vec<u32>,
+    pb: Vec<u32>,
+    ix: Vec<u32>,
+    ix2: Vec<u32>,
+}
+
+fn parse_w7h(t: &[&str]) -> Option<W7> {
+    if t.len() != 9 {
+        return None;
+    }
+    let n = |s: &str| -> Option<u32> { csv(s).filter(|v| v.len() == 1).map(|v| v[0]) };
+    let w = W7 { mode: n(t[0])? as usize, part: n(t[1])?, rot: n(t[2])?, sel: n(t[3])?, eps: csv(t[4])?, al: csv(t[5])?, pb: csv(t[6])?, ix: csv(t[7])?, ix2: csv(t[8])? };
+    if w.mode >= 8 {
+        return None;
+    }
+    let (ne, cb, ab, np, ib, ib2, nparts, _) = W7_SHAPE[w.mode];
+    let nch = if w.mode >= 6 { 4 } else { 3 };
+    let sep = w.mode == 4 || w.mode == 5;
+    let ok = w.part < nparts
+        && w.rot < 4
+        && w.sel < 2
+        && w.eps.len() == ne * nch
+        && w.eps.iter().all(|&v| v < 1 << cb)
+        && w.al.len() == if sep { 2 } else { 0 }
+        && w.al.iter().all(|&v| v < 1 << ab)
+        && w.pb.len() == np
+        && w.pb.iter().all(|&v| v < 2)
+        && w.ix.len() == 16
+        && w.ix.iter().all(|&v| v < 1 << ib)
+        && w.ix2.len() == if ib2 == 0 { 0 } else { 16 }
+        && w.ix2.iter().all(|&v| v < 1 << ib2);
+    if ok {
+        Some(w)
+    } else {
+        None
+    }
+}
+
+/// what the block is meant to decode to, computed from the format specification (weights on the 0..64 scale,
+/// `(v << 1 | p)` widened by bit replication, partition tables of the C03x oracle) - independent of the encoder's and
+/// of the Lean model's arithmetic
+fn w7_intended(w: &W7) -> Vec<[u8; 4]> {
+    const SW2: [u32; 4] = [0, 21, 43, 64];
+    const SW3: [u32; 8] = [0, 9, 18, 27, 37, 46, 55, 64];
+    const SW4: [u32; 16] = [0, 4, 9, 13, 17, 21, 26, 30, 34, 38, 43, 47, 51, 55, 60, 64];
+    let wt = |bits: u32, i: u32| match bits {
+        2 => SW2[i as usize],
+        3 => SW3[i as usize],
+        _ => SW4[i as usize],
+    };
+    let expand = |v: u32, bits: u32| if bits >= 8 { v } else { ((v << (8 - bits)) | (v >> (2 * bits - 8))) & 255 };
+    let lerp = |a: u32, b: u32, wgt: u32| ((64 - wgt) * a + wgt * b + 32) >> 6;
+    let (_, cb, ab, _, ib, ib2, _, ns) = W7_SHAPE[w.mode];
+    let nch = if w.mode >= 6 { 4 } else { 3 };
+    // fully decoded endpoint `e`, channel `c`
+    let endpoint = |e: usize, c: usize| -> u32 {
+        if c == 3 && w.mode <= 3 {
+            return 255;
+        }
+        let (raw, bits) = if c == 3 && (w.mode == 4 || w.mode == 5) { (w.al[e], ab) } else { (w.eps[e * nch + c], cb) };
+        match w.mode {
+            0 | 3 | 6 | 7 => expand(raw << 1 | w.pb[e], bits + 1),
+            1 => expand(raw << 1 | w.pb[e / 2], bits + 1),
+            _ => expand(raw, bits),
+        }
+    };
+    (0..16)
+        .map(|i| {
+            let s = crate::c03x::subset_of(ns, w.part as usize, i);
+            let (e0, e1) = (2 * s, 2 * s + 1);
+            let (wc, wa) = if ib2 == 0 {
+                (wt(ib, w.ix[i]), wt(ib, w.ix[i]))
+            } else if w.mode == 4 && w.sel == 1 {
+                (wt(ib2, w.ix2[i]), wt(ib, w.ix[i]))
+            } else {
+                (wt(ib, w.ix[i]), wt(ib2, w.ix2[i]))
+            };
+            let mut p = [0u8; 4];
+            for c in 0..4 {
+                p[c] = lerp(endpoint(e0, c), endpoint(e1, c), if c == 3 { wa } else { wc }) as u8;
+            }
+            if w.mode == 4 || w.mode == 5 {
+                match w.rot {
+                    1 => p.swap(0, 3),
+                    2 => p.swap(1, 3),
+                    3 => p.swap(2, 3),
+                    _ => {}
+                }
+            }
+            p
+        })
+        .collect()
+}
+
+#[cfg(dds_verif_bc7hook)]
+fn hook_write(w: &W7) -> [u8; 16] {
+    let u8s = |v: &[u32]| v.iter().map(|&x| x as u8).collect::<Vec<u8>>();
+    let mut eps = u8s(&w.eps);
+    eps.extend(u8s(&w.al));
+    let pb: Vec<bool> = w.pb.iter().map(|&x| x == 1).collect();
+    dds::verif_hook::bc7_write(w.mode as u8, w.part as u8, w.rot as u8, w.sel as u8, &eps, &pb, &u8s(&w.ix), &u8s(&w.ix2))
+}
+
+fn run_w7h(t: &[&str]) -> (String, Vec<String>) {
+    let w = match parse_w7h(t) {
+        Some(w) => w,
+        None => return ("bad-case".into(), vec![]),
+    };
+    #[cfg(not(dds_verif_bc7hook))]
+    {
+        let _ = w7_intended(&w);
+        ("no-hook".into(), vec![])
+    }
+    #[cfg(dds_verif_bc7hook)]
+    {
+        let block = hook_write(&w);
+        let mut msgs = vec![];
+        // T1 on the real code: the library decoder on the written block shows the intended palette entries
+        match lib_decode(F::Bc7, 1, &block) {
+            Ok(dec) => {
+                let want = w7_intended(&w);
+                for i in 0..16 {
+                    if dec[0][4 * i..4 * i + 4] != want[i] {
+                        msgs.push(format!(
+                            "bc7-writer-roundtrip: mode={} part={} rot={} sel={} block={} pixel={} decoded={:?} intended={:?}",
+                            w.mode, w.part, w.rot, w.sel, hex_encode(&block), i, &dec[0][4 * i..4 * i + 4], want[i]
+                        ));
+                        break;
+                    }
+                }
+            }
+            Err(e) => msgs.push(format!("bc7-writer-roundtrip: decode failed {e}")),
+        }
+        (format!("ok {}", hex_encode(&block)), msgs)
+    }
+}
+
+struct Cl7 {
+    kind: u8,
+    nch: usize,
+    bits: u32,
+    e0: Vec<u32>,
+    e1: Vec<u32>,
+    px: Vec<u32>,
+}
+
+fn parse_cl7h(t: &[&str]) -> Option<Cl7> {
+    if t.len() != 5 {
+        return None;
+    }
+    let (kind, nch) = match t[0] {
+        "rgb" => (0u8, 3usize),
+        "rgba" => (1, 4),
+        "alpha" => (2, 1),
+        _ => return None,
+    };
+    let bits = csv(t[1]).filter(|v| v.len() == 1)?[0];
+    let ok_bits = match kind {
+        0 | 2 => bits == 2 || bits == 3,
+        _ => bits == 2 || bits == 4,
+    };
+    let c = Cl7 { kind, nch, bits, e0: csv(t[2])?, e1: csv(t[3])?, px: csv(t[4])? };
+    let ok = ok_bits
+        && c.e0.len() == nch
+        && c.e1.len() == nch
+        && !c.px.is_empty()
+        && c.px.len() % nch == 0
+        && c.px.len() / nch <= 16
+        && (kind != 2 || c.px.len() == 16)
+        && c.e0.iter().chain(&c.e1).chain(&c.px).all(|&v| v < 256);
+    if ok {
+        Some(c)
+    } else {
+        None
+    }
+}
+
+/// exhaustive first-minimum search written from the specification's interpolation formula
+fn cl7_reference(c: &Cl7) -> (Vec<u32>, u64) {
+    const SW2: [i64; 4] = [0, 21, 43, 64];
+    const SW3: [i64; 8] = [0, 9, 18, 27, 37, 46, 55, 64];
+    const SW4: [i64; 16] = [0, 4, 9, 13, 17, 21, 26, 30, 34, 38, 43, 47, 51, 55, 60, 64];
+    let wts: &[i64] = match c.bits {
+        2 => &SW2,
+        3 => &SW3,
+        _ => &SW4,
+    };
+    let n = c.px.len() / c.nch;
+    let mut idx = vec![];
+    let mut err = 0u64;
+    for i in 0..n {
+        let mut best = (0u32, i64::MAX);
+        for (j, &w) in wts.iter().enumerate() {
+            let mut d = 0i64;
+            for ch in 0..c.nch {
+                let v = ((64 - w) * c.e0[ch] as i64 + w * c.e1[ch] as i64 + 32) >> 6;
+                let x = c.px[i * c.nch + ch] as i64 - v;
+                d += x * x;
+            }
+            if d < best.1 {
+                best = (j as u32, d);
+            }
+        }
+        idx.push(best.0);
+        err += best.1 as u64;
+    }
+    (idx, err)
+}
+
+fn run_cl7h(t: &[&str]) -> (String, Vec<String>) {
+    let c = match parse_cl7h(t) {
+        Some(c) => c,
+        None => return ("bad-case".into(), vec![]),
+    };
+    #[cfg(not(dds_verif_bc7hook))]
+    {
+        let _ = cl7_reference(&c);
+        let _ = (c.kind, c.bits);
+        ("no-hook".into(), vec![])
+    }
+    #[cfg(dds_verif_bc7hook)]
+    {
+        let u8s = |v: &[u32]| v.iter().map(|&x| x as u8).collect::<Vec<u8>>();
+        let (idx, err) = dds::verif_hook::bc7_closest(c.kind, c.bits as u8, &u8s(&c.e0), &u8s(&c.e1), &u8s(&c.px));
+        let mut msgs = vec![];
+        // the property-level demand: every chosen entry is A nearest palette entry and the error is the sum of the least
+        // distances (WHICH of several equally near entries is chosen is the tie's business, not the oracle's)
+        let (ridx, rerr) = cl7_reference(&c);
+        let n = c.px.len() / c.nch;
+        let dist = |i: usize, j: u32| -> i64 {
+            let wts: &[i64] = match c.bits {
+                2 => &[0, 21, 43, 64],
+                3 => &[0, 9, 18, 27, 37, 46, 55, 64],
+                _ => &[0, 4, 9, 13, 17, 21, 26, 30, 34, 38, 43, 47, 51, 55, 60, 64],
+            };
+            let w = wts[j as usize];
+            (0..c.nch)
+                .map(|ch| {
+                    let v = ((64 - w) * c.e0[ch] as i64 + w * c.e1[ch] as i64 + 32) >> 6;
+                    let x = c.px[i * c.nch + ch] as i64 - v;
+                    x * x
+                })
+                .sum()
+        };
+        let nearest = idx.len() == n && (0..n).all(|i| (idx[i] as u32) < (1 << c.bits) && dist(i, idx[i] as u32) == dist(i, ridx[i]));
+        if !nearest || err as u64 != rerr {
+            msgs.push(format!(
+                "bc7-closest-argmin: kind={} bits={} e0={:?} e1={:?} pixels={:?}: code {:?} err {}; a nearest entry per pixel {:?} err {}",
+                t[0], c.bits, c.e0, c.e1, c.px, idx, err, ridx, rerr
+            ));
+        }
+        (format!("ok {} {}", idx.iter().map(|x| x.to_string()).collect::<Vec<_>>().join(","), err), msgs)
+    }
+}
+
+/// the literal `const WEIGHTS_<w>: [u16; n] = [..];` of src/encode/bc7.rs (the ENCODER's copy of the tables)
+fn encoder_weights(w: u32) -> Option<Vec<u32>> {
+    let toml = std::fs::read_to_string(concat!(env!("CARGO_MANIFEST_DIR"), "/Cargo.toml")).ok()?;
+    let line = toml.lines().map(|l| l.trim()).find(|l| l.starts_with("dds") && l[3..].trim_start().starts_with('='))?;
+    let rest = &line[line.find("path")?..];
+    let q1 = rest.find('"')?;
+    let q2 = rest[q1 + 1..].find('"')?;
+    let src = std::fs::read_to_string(format!("{}/src/encode/bc7.rs", &rest[q1 + 1..q1 + 1 + q2])).ok()?;
+    let at = src.find(&format!("const WEIGHTS_{w}:"))?;
+    let body = &src[at..];
+    let eq = body.find('=')?;
+    let open = eq + body[eq..].find('[')?;
+    let close = open + body[open..].find(']')?;
+    body[open + 1..close].split(',').map(|x| x.trim()).filter(|x| !x.is_empty()).map(|x| x.parse().ok()).collect()
+}
+
+fn run_w7e(t: &[&str]) -> (String, Vec<String>) {
+    if t.len() != 2 {
+        return ("bad-case".into(), vec![]);
+    }
+    let (w, ws) = match (csv(t[0]).filter(|v| v.len() == 1).map(|v| v[0]), csv(t[1])) {
+        (Some(w), Some(ws)) if (2..=4).contains(&w) => (w, ws),
+        _ => return ("bad-case".into(), vec![]),
+    };
+    // tie only (the model's table against the source text): no oracle line - a retuned table is not by itself a
+    // violation of the property
+    let now = encoder_weights(w).unwrap_or_default();
+    let msgs = vec![];
+    let same = if now == ws { "same" } else { "DIFFERENT" };
+    (format!("ok {} {same}", now.iter().map(|x| x.to_string()).collect::<Vec<_>>().join(",")), msgs)
+}
+
+/// class `b7m`: BC7 blocks made of two or three colour clusters laid out along a partition of the format (own PRNG,
+/// appended): content for which the partitioned modes 0-3 (opaque) and 7 (translucent) win, so that the `cl7`
+/// re-derivation (`closest_*` per subset + `merge2 / merge3` + `compress_p2 / p3`) sees every mode
+fn gen_b7m(seed: u64, thorough: bool, specs: &mut Vec<Spec>) {
+    let mut rng = Rng::new(seed ^ 0xB7_33);
+    let reps = if thorough { 120 } else { 14 };
+    for &q in &['F', 'N', 'H', 'U'] {
+        let n = if q == 'U' || q == 'H' { reps * 2 } else { reps };
+        for k in 0..n {
+            let o = Opts { q, m: 'U', d: 'N' };
+            let translucent = k % 3 == 2;
+            let mut parts = vec![];
+            for _ in 0..4 {
+                let ns = if rng.chance(1, 2) { 2u32 } else { 3 };
+                let part = rng.below(if ns == 3 && q == 'F' { 16 } else { 64 }) as usize;
+                let cols: Vec<[u8; 4]> = (0..3)
+                    .map(|_| {
+                        let mut c = rand_color(&mut rng);
+                        c[3] = if translucent { rng.range(40, 250) as u8 } else { 255 };
+                        c
+                    })
+                    .collect();
+                let amp = *rng.pick(&[0u64, 0, 3, 12]);
+                parts.push((ns, part, cols, amp));
+            }
+            let mut r2 = Rng::new(rng.next());
+            let img = block_row(4, |b, p| {
+                let (ns, part, cols, amp) = &parts[b];
+                let mut c = cols[crate::c03x::subset_of(*ns, *part, p)];
+                for ch in 0..3 {
+                    c[ch] = (c[ch] as u64 * (255 - amp) / 255 + r2.below(amp + 1)) as u8;
+                }
+                c
+            });
+            specs.push(Spec { class: "b7m", f: F::Bc7, o, img, wit: None });
+        }
+    }
+}
+
+/// the `w7e` lines (always) and, when the hook exists, the direct writer / closest cases
+fn gen_bc7_internals(seed: u64, thorough: bool) -> Vec<String> {
+    let mut out = vec![];
+    for w in 2..=4 {
+        let ws = encoder_weights(w).unwrap_or_default();
+        out.push(format!("w7e {w} {}", if ws.is_empty() { "-".to_string() } else { ws.iter().map(|x| x.to_string()).collect::<Vec<_>>().join(",") }));
+    }
+    if !cfg!(dds_verif_bc7hook) {
+        return out;
+    }
+    let mut rng = Rng::new(seed ^ 0xC13_B7);
+    let j = |v: &[u32]| if v.is_empty() { "-".to_string() } else { v.iter().map(|x| x.to_string()).collect::<Vec<_>>().join(",") };
+    let reps = if thorough { 24 } else { 3 };
+    for mode in 0..8usize {
+        let (ne, cb, ab, np, ib, ib2, nparts, _) = W7_SHAPE[mode];
+        let nch = if mode >= 6 { 4 } else { 3 };
+        let sep = mode == 4 || mode == 5;
+        // every partition (modes 0-3, 7) / every rotation x selector (mode 4) / every rotation (mode 5) / mode 6 once
+        let variants: Vec<(u32, u32, u32)> = match mode {
+            4 => (0..4).flat_map(|r| (0..2).map(move |s| (0, r, s))).collect(),
+            5 => (0..4).map(|r| (0, r, 0)).collect(),
+            6 => vec![(0, 0, 0)],
+            _ => (0..nparts).map(|p| (p, 0, 0)).collect(),
+        };
+        for &(part, rot, sel) in &variants {
+            let extra = if variants.len() < 16 { 8 } else { 1 };
+            // index patterns: all anchors' top bits set (all max), all zero, all = top bit only, alternating, random
+            for pat in 0..(5 + reps * extra) {
+                let fill = |bits: u32, rng: &mut Rng| -> Vec<u32> {
+                    if bits == 0 {
+                        return vec![];
+                    }
+                    let max = (1u32 << bits) - 1;
+                    (0..16)
+                        .map(|i| match pat {
+                            0 => max,
+                            1 => 0,
+                            2 => 1 << (bits - 1),
+                            3 => if i % 2 == 0 { max } else { 0 },
+                            4 => if i % 2 == 0 { 0 } else { max },
+                            _ => rng.below(max as u64 + 1) as u32,
+                        })
+                        .collect()
+                };
+                let ext = |bits: u32, rng: &mut Rng| -> u32 {
+                    let max = (1u32 << bits) - 1;
+                    match rng.below(6) {
+                        0 => 0,
+                        1 => max,
+                        _ => rng.below(max as u64 + 1) as u32,
+                    }
+                };
+                let eps: Vec<u32> = (0..ne * nch).map(|_| ext(cb, &mut rng)).collect();
+                let al: Vec<u32> = if sep { (0..2).map(|_| ext(ab, &mut rng)).collect() } else { vec![] };
+                let pb: Vec<u32> = (0..np).map(|_| rng.below(2) as u32).collect();
+                let ix = fill(ib, &mut rng);
+                let ix2 = fill(ib2, &mut rng);
+                out.push(format!("w7h {mode} {part} {rot} {sel} {} {} {} {} {}", j(&eps), j(&al), j(&pb), j(&ix), j(&ix2)));
+            }
+        }
+    }
+    // closest_*: random endpoints / pixels, equal endpoints (every entry ties), pixels ON palette entries, pixels
+    // half way between two entries
+    for k in 0..(if thorough { 6000 } else { 600 }) {
+        let (kind, nch, bits) = *rng.pick(&[("rgb", 3usize, 2u32), ("rgb", 3, 3), ("rgba", 4, 2), ("rgba", 4, 4), ("alpha", 1, 2), ("alpha", 1, 3)]);
+        let e0: Vec<u32> = (0..nch).map(|_| rng.below(256) as u32).collect();
+        let e1: Vec<u32> = match k % 5 {
+            0 => e0.clone(),
+            1 => e0.iter().map(|&v| (v + rng.below(4) as u32).min(255)).collect(),
+            _ => (0..nch).map(|_| rng.below(256) as u32).collect(),
+        };
+        let n = if kind == "alpha" { 16 } else { rng.range(1, 16) as usize };
+        let px: Vec<u32> = (0..n * nch)
+            .map(|i| {
+                let (a, b) = (e0[i % nch], e1[i % nch]);
+                match rng.below(4) {
+                    0 => (a + b) / 2,
+                    1 => if rng.chance(1, 2) { a } else { b },
+                    _ => rng.below(256) as u32,
+                }
+            })
+            .collect();
+        out.push(format!("cl7h {kind} {bits} {} {} {}", j(&e0), j(&e1), j(&px)));
+    }
+    out
+}
+
 // ---------------------------------------------------------------------------------------------
 // run
 
@@ -996,6 +1441,13 @@ fn parse(line: &str) -> Option<Case> {
 }
 
 pub fn run(line: &str) -> Option<(String, Vec<String>)> {
+    let t = toks(line);
+    match t.first().copied() {
+        Some("w7h") => return Some(run_w7h(&t[1..])),
+        Some("cl7h") => return Some(run_cl7h(&t[1..])),
+        Some("w7e") => return Some(run_w7e(&t[1..])),
+        _ => {}
+    }
     let case = match parse(line) {
         Some(c) => c,
         None => return Some(("bad-case".into(), vec![])),
@@ -1063,7 +1515,38 @@ pub fn run(line: &str) -> Option<(String, Vec<String>)> {
     } else {
         "-".to_string()
     };
-    let res = format!("ok {nb} {shapes} {ports} {hashes} {pred} {b7}");
+    // BC7 writer model: the driver parses every emitted block into the arguments of `Compressed::modeN` and writes
+    // them again with `Enc7.write` (must give the same 16 bytes) ...
+    let w7 = if f == F::Bc7 {
+        (0..nb).map(|b| format!("{:08x}", hash_block(&blocks[b * bpb..(b + 1) * bpb]))).collect::<String>()
+    } else {
+        "-".to_string()
+    };
+    // ... and, where the indexes of the emitted block are those of `closest_*` on the emitted endpoints (RGBA8 input,
+    // no dithering, not single-coloured, block fully inside the image), re-derives the whole block from the emitted
+    // endpoints / p-bits / partition / rotation / selector and the ORIGINAL pixels (`Enc7.emit`)
+    let cl7 = if f == F::Bc7 && img.prec == InPrec::Rgba8 && o.d == 'N' {
+        (0..nb)
+            .map(|b| {
+                let (bx, by) = (b % wb, b / wb);
+                if in_image_mask(&img, bx, by) != 0xFFFF {
+                    return "-".to_string();
+                }
+                let px = |p: usize| {
+                    let o = ((by * 4 + p / 4) * img.w + bx * 4 + p % 4) * 4;
+                    [img.data[o], img.data[o + 1], img.data[o + 2], img.data[o + 3]]
+                };
+                if (1..16).all(|p| px(p) == px(0)) {
+                    return "-".to_string();
+                }
+                format!("{:08x}", hash_block(&blocks[b * bpb..(b + 1) * bpb]))
+            })
+            .collect::<Vec<_>>()
+            .join(";")
+    } else {
+        "-".to_string()
+    };
+    let res = format!("ok {nb} {shapes} {ports} {hashes} {pred} {b7} {w7} {cl7}");
 
     // oracle: fresh encode
     match lib_encode(f, o, &img) {
@@ -1710,5 +2193,8 @@ pub fn gen(seed: u64, thorough: bool) -> Vec<String> {
     }
     let _ = n;
     gen_discrete(seed, thorough, &mut specs);
-    specs.par_iter().map(line_of).collect()
+    gen_b7m(seed, thorough, &mut specs);
+    let mut lines: Vec<String> = specs.par_iter().map(line_of).collect();
+    lines.extend(gen_bc7_internals(seed, thorough));
+    lines
 }
